@@ -175,4 +175,8 @@ def _fix_atomic_specifiers_once(
     cast(Any, grandparent).type = node.type
     if "_Atomic" not in node.type.quals:
         node.type.quals.append("_Atomic")
+    if isinstance(node.type, (c_ast.TypeDecl, c_ast.PtrDecl)):
+        # Keep the other qualifiers of the declaration (const _Atomic(int) x)
+        # on the node that replaces the wrapper, in specifier order.
+        node.type.quals[:0] = [q for q in parent.quals or [] if q not in node.type.quals]
     return decl, True
